@@ -198,6 +198,22 @@ def lift_py(c):
     raise Unsupported(f'lift {type(c)}')
 
 
+def is_none_term(t):
+    """`t is None` for an Obj term: values built by injections / tuples / lists are never None."""
+    if z3.is_app(t):
+        d = t.decl()
+        if d.kind() == z3.Z3_OP_ITE:
+            c, a, b = t.children()
+            return z3.If(c, is_none_term(a), is_none_term(b))
+        nm = d.name()
+        if nm.startswith(('inj_', 'tuple', 'list_of_len')):
+            return z3.BoolVal(False)
+    return t == NONE_OBJ
+
+
+STR_LOWER = z3.Function('str_lower', z3.StringSort(), z3.StringSort())
+
+
 def eq(a, b):
     """z3 Bool for Python `a == b` on modelled kinds."""
     if a.kind == 'none' or b.kind == 'none':
@@ -207,7 +223,7 @@ def eq(a, b):
         if x.kind == 'opt':
             return x.a['isnone']
         if x.kind == 'obj':
-            return x.t == NONE_OBJ
+            return is_none_term(x.t)
         return z3.BoolVal(False)
     if a.kind == 'opt' or b.kind == 'opt':
         if a.kind == 'opt' and b.kind == 'opt':
@@ -618,6 +634,10 @@ class Engine:
             return V('opt', None, isnone=isnone, inner=x)
         if a.kind == 'tuple' and b.kind == 'tuple' and len(a.a['items']) == len(b.a['items']):
             return V('tuple', None, items=[self.ite(c, x, y) for x, y in zip(a.a['items'], b.a['items'])])
+        if a.kind == 'opt' or b.kind == 'opt':
+            ia, xa = (a.a['isnone'], a.a['inner']) if a.kind == 'opt' else (z3.BoolVal(False), a)
+            ib, xb = (b.a['isnone'], b.a['inner']) if b.kind == 'opt' else (z3.BoolVal(False), b)
+            return V('opt', None, isnone=z3.If(c, ia, ib), inner=self.ite(c, xa, xb))
         return ObjV(z3.If(c, to_obj(a), to_obj(b)))
 
     def binop(self, op, a, b):
@@ -768,6 +788,9 @@ class Engine:
         if name in self.hooks:
             self.point('call', name.split('.')[-1], e, st)
             r = self.hooks[name](self, e, st, [self.ev(a, st) for a in e.args] if not any(isinstance(a, ast.Starred) for a in e.args) else None)
+            for i in getattr(self.c, 'mutates', {}).get(name, ()):
+                if i < len(e.args) and isinstance(e.args[i], ast.Name) and e.args[i].id in st.env:
+                    st.env[e.args[i].id] = fresh_like(st.env[e.args[i].id], e.args[i].id)     # the callee may mutate this argument
             return r
         short = name.split('.')[-1] if name else ''
         # pure uninterpreted function of the arguments; repo functions get normalised argument lists
@@ -782,9 +805,21 @@ class Engine:
             raise Unsupported('star args')
         args = [self.ev(a, st) for a in e.args]
         kws = sorted((k.arg, self.ev(k.value, st)) for k in e.keywords)
-        if isinstance(e.func, ast.Attribute) and not (isinstance(e.func.value, ast.Name) and e.func.value.id not in st.env and (e.func.value.id in self.imports or e.func.value.id in ('os', 're', 'util', 'bracex', 'functools', 'copyreg', 'stat'))):
+        root = e.func
+        while isinstance(root, ast.Attribute):
+            root = root.value
+        is_module_fn = isinstance(root, ast.Name) and root.id not in st.env and (root.id in self.imports or root.id in ('os', 're', 'util', 'bracex', 'functools', 'copyreg', 'stat', 'unicodedata', 'sys'))
+        if isinstance(e.func, ast.Attribute) and not is_module_fn:
             recv = self.ev(e.func.value, st)
             mname = e.func.attr
+            if mname in ('append', 'add') and len(args) == 1 and recv.kind in ('list', 'set'):
+                self.point('call', mname, e, st, args[0])
+            if recv.kind == 'obj' and mname == 'pop' and len(args) == 1 and isinstance(e.func.value, (ast.Name, ast.Attribute)):
+                idx = args[0]
+                if idx.kind == 'int' and z3.is_int_value(z3.simplify(idx.t)) and z3.simplify(idx.t).as_long() == 0:
+                    head = U('list.head', recv)
+                    self.store_back(e.func.value, U('list.tail', recv), st)
+                    return head
             if recv.kind == 'list' and mname == 'append' and len(args) == 1:
                 nl = V('list', None, length=recv.a['length'] + 1, elem=recv.a.get('elem'), tail=list(recv.a.get('tail', [])) + [args[0]])
                 self.store_back(e.func.value, nl, st)
@@ -796,6 +831,8 @@ class Engine:
                 return Bool(z3.SuffixOf(args[0].t, recv.t))
             if recv.kind == 'str' and mname == 'startswith' and len(args) == 1 and args[0].kind == 'str':
                 return Bool(z3.PrefixOf(args[0].t, recv.t))
+            if recv.kind == 'str' and mname == 'lower' and not args:
+                return Str(STR_LOWER(recv.t), is_bytes=recv.a.get('is_bytes', False))
             self.point('call', mname, e, st)
             return U('method.' + mname + ''.join(f',{k}=' for k, _ in kws), recv, *args, *[v for _, v in kws])
         self.point('call', short, e, st)
@@ -858,13 +895,15 @@ class Engine:
         out.sort(key=lambda n: (n.lineno, n.col_offset))
         return out
 
-    def eval_forking(self, e, st):
-        """Evaluate expression e that may contain forking calls. Returns list of (st, V | Outcome)."""
+    def eval_forking(self, e, st, as_cond=False):
+        """Evaluate expression e that may contain forking calls. Returns list of (st, V | Outcome); with as_cond the
+        value is Bool(truth of e) computed by `cond` (each call is evaluated exactly once either way)."""
         if e is None:
             return [(st, NONE)]
+        final = (lambda s: Bool(self.cond(e, s))) if as_cond else (lambda s: self.ev(e, s))
         calls = self.forking_calls(e)
         if not calls:
-            return [(st, self.ev(e, st))]
+            return [(st, final(st))]
         if isinstance(e, (ast.BoolOp, ast.IfExp)) and len(calls) >= 1 and not (len(calls) == 1 and calls[0] is e):
             # short-circuit context: only supported when the forking call is the LAST operand evaluated
             pass
@@ -894,7 +933,7 @@ class Engine:
             if oc is not None:
                 out.append((s, oc))
             else:
-                out.append((s, self.ev(e, s)))
+                out.append((s, final(s)))
         return out
 
     def stmt(self, s, st):
@@ -962,11 +1001,11 @@ class Engine:
             return [(st, Outcome('raise', exc=name))]
         if isinstance(s, ast.If):
             out = []
-            for s1, tv in self.eval_forking(s.test, st):
+            for s1, tv in self.eval_forking(s.test, st, as_cond=True):
                 if isinstance(tv, Outcome):
                     out.append((s1, tv))
                     continue
-                c = self.cond(s.test, s1) if not self.forking_calls(s.test) else self.cond(s.test, s1)
+                c = tv.t
                 a = s1.fork(c, f'L{s.lineno}:T')
                 b = s1.fork(z3.Not(c), f'L{s.lineno}:F')
                 if self.feasible(a):
@@ -1031,6 +1070,10 @@ class Engine:
                         names.add(x.id)
                     elif isinstance(x, ast.Attribute) and self.dotted(x.value) == 'self' and isinstance(x.ctx, ast.Store):
                         fields.add(x.attr)
+            if isinstance(n, ast.Call) and self.dotted(n.func) in getattr(self.c, 'mutates', {}):
+                for i in self.c.mutates[self.dotted(n.func)]:
+                    if i < len(n.args) and isinstance(n.args[i], ast.Name):
+                        names.add(n.args[i].id)
             if isinstance(n, ast.Call) and isinstance(n.func, ast.Attribute) and n.func.attr in ('add', 'append', 'remove', 'pop', 'insert', 'extend', 'clear'):
                 if isinstance(n.func.value, ast.Name):
                     names.add(n.func.value.id)
@@ -1104,6 +1147,10 @@ class Engine:
                                 out.append((s2, oc2))
                     cur = nxt
                 return out + cur
+            elif seqv.kind == 'obj':
+                ln = U('len', seqv, ret='int')
+                st.pc.append(ln.t >= 0)
+                it = AbstractIter(ln.t, lambda k, sv=seqv: U('getitem', sv, Int(k)))
             else:
                 raise Unsupported(f'iteration over {seqv.kind}')
         oe = getattr(self.c, 'on_entry', {}).get(ordn)
@@ -1156,11 +1203,11 @@ class Engine:
         h = self.havoc_loop(s, st, ordn)
         h.pc.append(inv(h, None))
         out = []
-        for s1, tv in self.eval_forking(s.test, h):
+        for s1, tv in self.eval_forking(s.test, h, as_cond=True):
             if isinstance(tv, Outcome):
                 out.append((s1, tv))
                 continue
-            c = self.cond(s.test, s1)
+            c = tv.t
             ex = s1.fork(z3.Not(c), f'loop{ordn}:exit')
             if self.feasible(ex):
                 out.append((ex, Outcome('normal')))
